@@ -1,8 +1,11 @@
 import JetVerif.Props.C03
+import JetVerif.Props.C03D
 open JetVerif.Props.C03
+open JetVerif.Props.C03D
 #print axioms JetVerif.Lex.lexRun_chain
 #print axioms events_tile_the_source
 #print axioms token_values_are_source_slices
 #print axioms isSpaceByte_iff
 #print axioms leftTrimLength_spec
 #print axioms rightTrimLength_spec
+#print axioms dropped_ranges_are_whitespace_markers_or_comments
